@@ -1,6 +1,22 @@
 package main
 
-import "jetverif/harness/h"
+import (
+	"bytes"
+	"fmt"
+	"strings"
+
+	"github.com/CloudyKit/jet/v6"
+
+	"jetverif/harness/h"
+	"jetverif/harness/sx"
+)
+
+func max0(x int) int {
+	if x < 0 {
+		return 0
+	}
+	return x
+}
 
 func genEvalFlavor(stream, flavor string, nQuick, nThorough int) func(r *h.Rand, tier string) []h.Case {
 	return func(r *h.Rand, tier string) []h.Case {
@@ -21,8 +37,69 @@ func genEvalFlavor(stream, flavor string, nQuick, nThorough int) func(r *h.Rand,
 	}
 }
 
+// Stream "escape-sweep" (oracle only): one value of every length in a window, ending in a special
+// character, through the default escaper and through safeHtml - the bytes written must be Go's own
+// HTMLEscape of the value whatever its length (printers and escapers work in chunks and buffers).
+func genEscapeSweep(r *h.Rand, tier string) []h.Case {
+	windows := [][2]int{{0, 700}, {4060, 4140}, {4600, 4640}, {8180, 8210}}
+	if tier != "quick" {
+		windows = [][2]int{{0, 2300}, {3900, 5300}, {8000, 9400}, {12200, 12400}, {16300, 16500}}
+	}
+	var cs []h.Case
+	for _, w := range windows {
+		for _, sp := range []string{"&", "'", "\"", "<", ">", "&&", "\x00", "é"} {
+			for _, mode := range []string{"plain", "safeHtml", "range"} {
+				if tier == "quick" && r.Chance(50) {
+					continue
+				}
+				cs = append(cs, h.Case{Stream: "escape-sweep", NoModel: true, NonTrivial: true, Tags: []string{mode},
+					Cmd: sx.L(sx.A("escape-sweep"), sx.A(mode), sx.I(int64(w[0])), sx.I(int64(w[1])), sx.S(sp), sx.S(r.Pick([]string{"a", "<", "é", "&"})))})
+			}
+		}
+	}
+	return cs
+}
+
 func init() {
-	h.RegisterProp(&h.Prop{ID: "C01", Gen: genEvalFlavor("eval", "escape", 600, 20000)})
+	h.RegisterImpl("escape-sweep", func(cmd, _ *sx.Sexp) (*sx.Sexp, string) {
+		mode, lo, hi, sp, padc := cmd.Xs[1].A, atoi(cmd.Xs[2].A), atoi(cmd.Xs[3].A), string(cmd.Xs[4].B), string(cmd.Xs[5].B)
+		src := map[string]string{"plain": "{{ v }}", "safeHtml": "{{ v | safeHtml }}", "range": "{{range vs}}{{.}}{{end}}"}[mode]
+		ld := jet.NewInMemLoader()
+		ld.Set("/s.jet", src)
+		set := jet.NewSet(ld)
+		t, err := set.GetTemplate("/s.jet")
+		if err != nil {
+			return sx.L(sx.A("parse-error")), "sweep template did not parse: " + err.Error()
+		}
+		for n := lo; n < hi; n++ {
+			// the pad itself may need escaping: the special character lands at every offset of the output as well
+			v := strings.Repeat(padc, n/len(padc)) + sp + "7;"
+			want := htmlEsc(v)
+			vars := jet.VarMap{}
+			vars.Set("v", v)
+			vars.Set("vs", []string{v, v})
+			if mode == "range" {
+				want += want
+			}
+			var buf bytes.Buffer
+			if xerr := executeContained(t, &buf, vars, nil); xerr != nil {
+				return sx.L(sx.A("err"), sx.I(int64(n))), fmt.Sprintf("rendering a %d-byte string failed: %v", len(v), xerr)
+			}
+			if got := buf.String(); got != want {
+				k := 0
+				for k < len(got) && k < len(want) && got[k] == want[k] {
+					k++
+				}
+				return sx.L(sx.A("diff"), sx.I(int64(n))), fmt.Sprintf("%s of a %d-byte value (%d x %q + %q + \"7;\"): output differs from HTMLEscape(value) at byte %d: got ...%q want ...%q",
+					src, len(v), n/len(padc), padc, sp, k, clipS(got[max0(k-8):]), clipS(want[max0(k-8):]))
+			}
+		}
+		return sx.L(sx.A("ok")), ""
+	})
+	c01 := genEvalFlavor("eval", "escape", 600, 20000)
+	h.RegisterProp(&h.Prop{ID: "C01", Gen: func(r *h.Rand, tier string) []h.Case {
+		return append(c01(r, tier), genEscapeSweep(r, tier)...)
+	}})
 	c05 := genEvalFlavor("eval", "control", 600, 20000)
 	h.RegisterProp(&h.Prop{ID: "C05", Gen: func(r *h.Rand, tier string) []h.Case {
 		cs := c05(r, tier)
